@@ -821,8 +821,8 @@ def _chan_receive_shape_ok():
 
 @fact("chan_local_close_order_ok", "bool", "false")
 def _chan_local_close_order_ok():
-    """ChannelFactory._local_close on a registered channel: error appended, unregistered (the callback gets its endmarker BEFORE
-    waitclose can return), _closed and _receiveclosed set BEFORE the ENDMARKER is queued (a receiver that sees the ENDMARKER
+    """ChannelFactory._local_close on a registered channel: error appended, _closed set, unregistered (the callback gets its endmarker on
+    a channel that reports closed, and BEFORE waitclose can return), _receiveclosed set, all BEFORE the ENDMARKER is queued (a receiver that sees the ENDMARKER
     finds the error and the closed state)"""
     f = find("gateway_base.py", "ChannelFactory._local_close")
     body = _body_nodoc(f)
@@ -832,8 +832,8 @@ def _chan_local_close_order_ok():
     if "self._no_longer_opened(id)" not in gone or "channel." in gone:
         return "false"
     t = [_src(n) for n in body[1].orelse]
-    want = ["if remoteerror:\n    channel._remoteerrors.append(remoteerror)", "queue = channel._items", "self._no_longer_opened(id)",
-            "if not sendonly:\n    channel._closed = True", "channel._receiveclosed.set()", "if queue is not None:\n    queue.put(ENDMARKER)"]
+    want = ["if remoteerror:\n    channel._remoteerrors.append(remoteerror)", "queue = channel._items", "if not sendonly:\n    channel._closed = True",
+            "self._no_longer_opened(id)", "channel._receiveclosed.set()", "if queue is not None:\n    queue.put(ENDMARKER)"]
     if t != want:
         return "false"
     n = _src(find("gateway_base.py", "ChannelFactory._no_longer_opened"))
